@@ -25,6 +25,13 @@ namespace Quic.Conn.IdleTimer
 /-- the literal `3` of `get_idle_timer_duration` (bridged to /repo by `Bridge/Timers.lean`) -/
 def PTO_MULTIPLIER : Nat := 3
 
+/-- `MaxIdleTimeout::RECOMMENDED` (ms): the default an endpoint advertises -/
+def DEFAULT_MAX_IDLE_TIMEOUT_MS : Nat := 30000
+
+/-- `MAX_HANDSHAKE_DURATION_DEFAULT` (s): what reports the failure of a connection whose idle timer was never
+    armed (no packet processed yet) -/
+def MAX_HANDSHAKE_DURATION_DEFAULT_SECS : Nat := 10
+
 /-- `K_GRANULARITY.as_micros()` used by `Timestamp::has_elapsed` -/
 def K_GRANULARITY_US : Nat := 1000
 
